@@ -4750,6 +4750,11 @@ where
             )
         });
 
+        // The insertion that brings the vertex count to D+1 replaces the bootstrap `Tds` with a
+        // freshly built simplex `Tds`, which re-keys every vertex: the hash grid (keyed by
+        // `VertexKey`) must be rebuilt afterwards.
+        let rebuilds_tds = self.tri.tds.number_of_cells() == 0;
+
         let insertion_result = (|| {
             let hint = self.insertion_state.last_inserted_cell;
             let (outcome, _stats) = {
@@ -4783,6 +4788,10 @@ where
                 InsertionOutcome::Skipped { error } => Err(error),
             }
         })();
+
+        if rebuilds_tds && self.tri.tds.number_of_cells() > 0 {
+            self.spatial_index = None;
+        }
 
         match insertion_result {
             Ok(v_key) => Ok(v_key),
@@ -4854,6 +4863,9 @@ where
             )
         });
 
+        // See `insert`: the bootstrap rebuild re-keys every vertex.
+        let rebuilds_tds = self.tri.tds.number_of_cells() == 0;
+
         let insertion_result = (|| {
             let hint = self.insertion_state.last_inserted_cell;
             let (outcome, stats) = {
@@ -4889,6 +4901,10 @@ where
 
             Ok((outcome, stats))
         })();
+
+        if rebuilds_tds && self.tri.tds.number_of_cells() > 0 {
+            self.spatial_index = None;
+        }
 
         match insertion_result {
             Ok((outcome, stats)) => Ok((outcome, stats)),
@@ -5549,6 +5565,22 @@ where
                 }
             }
         }
+    }
+}
+
+impl<K, U, V, const D: usize> DelaunayTriangulation<K, U, V, D>
+where
+    K: Kernel<D>,
+    U: DataType,
+    V: DataType,
+{
+    /// Drops the insertion-time caches (duplicate-detection hash grid and locate hint).
+    ///
+    /// Must be called whenever the `Tds` is edited behind the caches' back (Edit-API flips);
+    /// the grid is re-seeded lazily from the current vertices by the next insertion.
+    pub(crate) fn invalidate_insertion_caches(&mut self) {
+        self.insertion_state.last_inserted_cell = None;
+        self.spatial_index = None;
     }
 }
 
